@@ -36,6 +36,78 @@ type B64 = f64::BaseElement;
 type B62 = f62::BaseElement;
 type B128 = f128::BaseElement;
 
+// ------------------------------------------------------------------------------------ allocator
+/// counts the bytes requested from the allocator: decoding must stay proportional to the input whatever length
+/// prefixes the bytes carry and whichever byte source delivers them (same judgement as c06.rs)
+struct Counting;
+static CUR: std::sync::atomic::AtomicUsize = std::sync::atomic::AtomicUsize::new(0);
+static PEAK: std::sync::atomic::AtomicUsize = std::sync::atomic::AtomicUsize::new(0);
+fn note_add(n: usize) {
+    use std::sync::atomic::Ordering::Relaxed;
+    let c = CUR.fetch_add(n, Relaxed) + n;
+    PEAK.fetch_max(c, Relaxed);
+}
+unsafe impl std::alloc::GlobalAlloc for Counting {
+    unsafe fn alloc(&self, l: std::alloc::Layout) -> *mut u8 {
+        let p = std::alloc::System.alloc(l);
+        if !p.is_null() {
+            note_add(l.size());
+        }
+        p
+    }
+    unsafe fn alloc_zeroed(&self, l: std::alloc::Layout) -> *mut u8 {
+        let p = std::alloc::System.alloc_zeroed(l);
+        if !p.is_null() {
+            note_add(l.size());
+        }
+        p
+    }
+    unsafe fn dealloc(&self, p: *mut u8, l: std::alloc::Layout) {
+        std::alloc::System.dealloc(p, l);
+        CUR.fetch_sub(l.size(), std::sync::atomic::Ordering::Relaxed);
+    }
+    unsafe fn realloc(&self, p: *mut u8, l: std::alloc::Layout, new: usize) -> *mut u8 {
+        let q = std::alloc::System.realloc(p, l, new);
+        if !q.is_null() {
+            if new >= l.size() {
+                note_add(new - l.size());
+            } else {
+                CUR.fetch_sub(l.size() - new, std::sync::atomic::Ordering::Relaxed);
+            }
+        }
+        q
+    }
+}
+#[global_allocator]
+static GLOBAL: Counting = Counting;
+
+/// run `f`, return its result and the peak growth of live heap bytes while it ran
+fn measured<T>(f: impl FnOnce() -> T) -> (T, usize) {
+    use std::sync::atomic::Ordering::Relaxed;
+    let base = CUR.load(Relaxed);
+    PEAK.store(base, Relaxed);
+    let r = f();
+    (r, PEAK.load(Relaxed).saturating_sub(base))
+}
+/// heap a decoder may request for an input of this many bytes
+fn alloc_limit(input_len: usize) -> usize {
+    (64usize << 20).min(1000 * input_len + (1 << 20))
+}
+thread_local! {
+    /// byte source the next `decode_from` runs over, and the over-allocations seen since the last `drain_alloc`
+    static CUR_SRC: std::cell::RefCell<String> = std::cell::RefCell::new("slicereader".into());
+    static ALLOC_NOTES: std::cell::RefCell<Vec<(String, String)>> = std::cell::RefCell::new(vec![]);
+}
+fn set_src(s: &str) {
+    CUR_SRC.with(|c| *c.borrow_mut() = s.to_string());
+}
+fn drain_alloc(mut o: Outcome) -> Outcome {
+    for (site, detail) in ALLOC_NOTES.with(|n| std::mem::take(&mut *n.borrow_mut())) {
+        o = o.fail(site, detail);
+    }
+    o
+}
+
 // ------------------------------------------------------------------------------------ text parser
 pub struct P<'a> {
     s: &'a [u8],
@@ -1584,7 +1656,16 @@ impl Verdict {
 }
 
 fn decode_from<T: Val, R: ByteReader>(r: &mut R, total: usize) -> (Option<T>, Verdict, String) {
-    let res = guarded(|| T::read_from(r));
+    let (res, growth) = measured(|| guarded(|| T::read_from(r)));
+    if growth > alloc_limit(total) {
+        let src = CUR_SRC.with(|c| c.borrow().clone());
+        ALLOC_NOTES.with(|n| {
+            n.borrow_mut().push((
+                format!("{}.alloc", src),
+                format!("decoding {} from {} bytes over {} requested {} bytes of heap (limit {})", T::ty(), total, src, growth, alloc_limit(total)),
+            ))
+        });
+    }
     match res {
         Err(info) => (None, Verdict::Panic, info),
         Ok(Err(DeserializationError::UnexpectedEOF)) => (None, Verdict::Eof, String::new()),
@@ -1625,21 +1706,26 @@ impl<'a> Read for Chunked<'a> {
 
 fn cross_check<T: Val>(mut o: Outcome, input: &[u8], reference: &Verdict) -> Outcome {
     let total = input.len();
+    set_src("cursor");
     let (_, v, info) = decode_from::<T, _>(&mut Cursor::new(input), total);
     if v != *reference {
         o = o.fail("cursor.disagree", format!("Cursor: {} SliceReader: {} {}", short(&v.text()), short(&reference.text()), info));
     }
     let l = input.len();
-    let chunkings: [(&str, Vec<usize>); 4] = [
+    let chunkings: [(&str, Vec<usize>); 6] = [
         ("chunk1", vec![1]),
         ("straddle", vec![3, 1, 2, 7, 5]),
         ("whole", vec![1 << 20]),
         ("mixed", vec![l % 5 + 1, 255, l % 11 + 1, 256, 257, 2]),
+        ("chunk7", vec![7]),
+        ("chunk256", vec![256]),
     ];
     for (name, sizes) in chunkings.iter() {
         let mut src = Chunked { data: input, pos: 0, sizes: sizes.clone(), k: 0 };
         let mut ad = ReadAdapter::new(&mut src);
+        set_src(&format!("readadapter.{}", name));
         let (_, v, info) = decode_from::<T, _>(&mut ad, total);
+        set_src("slicereader");
         if v != *reference {
             o = o.fail(
                 format!("readadapter.{}", name),
@@ -1729,6 +1815,95 @@ fn run_enc<T: Val>(text: &str) -> Outcome {
     // exact input (no suffix): the reader must be exhausted
     let (_, v2, _) = decode_from::<T, _>(&mut SliceReader::new(&bytes), bytes.len());
     o = cross_check::<T>(o, &bytes, &v2);
+    drain_alloc(twins::<T>(o, &v, &bytes, &input, d.as_ref(), &verdict))
+}
+
+/// a byte sink that takes at most three bytes per call (the blanket `ByteWriter for W: io::Write` must write all)
+struct Dribble(Vec<u8>);
+impl std::io::Write for Dribble {
+    fn write(&mut self, b: &[u8]) -> std::io::Result<usize> {
+        let n = b.len().min(3);
+        self.0.extend_from_slice(&b[..n]);
+        Ok(n)
+    }
+    fn flush(&mut self) -> std::io::Result<()> {
+        Ok(())
+    }
+}
+
+/// twin entry points of `to_bytes` / `read_from` (DESIGN 9.5 lesson 14) on the same value: `write_into` on a writer
+/// that already holds data, through `Serializable for &T`, `ByteWriter::write`, `write_many`, on other `io::Write`
+/// sinks (a Cursor, a sink that takes three bytes per call); `read_from_bytes`, `ByteReader::read`, `read_many`
+fn twins<T: Val>(mut o: Outcome, v: &T, bytes: &[u8], input: &[u8], d: Option<&T>, reference: &Verdict) -> Outcome {
+    let base = base_of(&T::ty());
+    match guarded(|| {
+        let mut w1: Vec<u8> = vec![0xa5];
+        v.write_into(&mut w1);
+        let mut w2 = Cursor::new(Vec::<u8>::new());
+        (&v).write_into(&mut w2);
+        let mut w3 = Dribble(vec![]);
+        ByteWriter::write(&mut w3, v);
+        let mut w4: Vec<u8> = vec![];
+        w4.write_many([v, v]);
+        (w1, w2.into_inner(), w3.0, w4)
+    }) {
+        Ok((w1, w2, w3, w4)) => {
+            if w1[0] != 0xa5 || w1[1..] != bytes[..] {
+                o = o.fail(format!("{}.write_into.appends", base), "write_into on a non-empty writer does not append to_bytes()");
+            }
+            if w2 != bytes || w3 != bytes {
+                o = o.fail(format!("{}.write_into.sink", base), "write_into on another io::Write sink (Cursor / three bytes per call, through &T / ByteWriter::write) differs from to_bytes()");
+            }
+            if w4.len() != 2 * bytes.len() || w4[..bytes.len()] != bytes[..] || w4[bytes.len()..] != bytes[..] {
+                o = o.fail(format!("{}.write_many", base), "write_many([v, v]) is not to_bytes() twice");
+            }
+        },
+        Err(info) => o = o.fail(format!("{}.write_into.panic", base), format!("to_bytes() succeeded but a twin writer panicked: {}", info)),
+    }
+    // readers: the default read_from_bytes and the generic ByteReader::read must behave like read_from on a SliceReader
+    let kind = |r: &Result<Result<T, DeserializationError>, String>| -> Verdict {
+        match r {
+            Err(_) => Verdict::Panic,
+            Ok(Err(DeserializationError::UnexpectedEOF)) => Verdict::Eof,
+            Ok(Err(_)) => Verdict::Err,
+            Ok(Ok(_)) => Verdict::Ok(String::new(), 0),
+        }
+    };
+    let same_kind = |a: &Verdict, b: &Verdict| std::mem::discriminant(a) == std::mem::discriminant(b);
+    let rb = guarded(|| T::read_from_bytes(input));
+    let rr = guarded(|| SliceReader::new(input).read::<T>());
+    for (name, r) in [("read_from_bytes", &rb), ("reader.read", &rr)] {
+        let agrees = same_kind(&kind(r), reference)
+            && match (r, d) {
+                (Ok(Ok(x)), Some(d)) => x == d,
+                (Ok(Ok(_)), None) => false,
+                _ => true,
+            };
+        if !agrees {
+            o = o.fail(format!("{}.{}", base, name), format!("{} disagrees with read_from on a SliceReader ({})", name, short(&reference.text())));
+        }
+    }
+    // read_many(2) over two encodings: both values, exactly the written bytes
+    if let (Some(d), Verdict::Ok(_, rest)) = (d, reference) {
+        if *rest == SUFFIX.len() && d == v && bytes.len() <= 200_000 {
+            let mut two = bytes.to_vec();
+            two.extend_from_slice(bytes);
+            two.extend_from_slice(&SUFFIX);
+            let r = guarded(|| {
+                let mut rd = SliceReader::new(&two);
+                let vs: Result<Vec<T>, DeserializationError> = rd.read_many(2);
+                let mut left = 0usize;
+                while rd.read_u8().is_ok() {
+                    left += 1;
+                }
+                (vs, left)
+            });
+            match r {
+                Ok((Ok(vs), left)) if vs.len() == 2 && vs[0] == *v && vs[1] == *v && left == SUFFIX.len() => {},
+                _ => o = o.fail(format!("{}.read_many", base), "read_many(2) over two encodings does not give the value twice and stop after them"),
+            }
+        }
+    }
     o
 }
 
@@ -1772,7 +1947,7 @@ fn run_dec<T: Val>(h: &str) -> Outcome {
             }
         },
     }
-    cross_check::<T>(o, &input, &verdict)
+    drain_alloc(cross_check::<T>(o, &input, &verdict))
 }
 
 /// reader that refuses length prefixes above 2^22 (used by the generator only, to keep allocation
@@ -2192,6 +2367,114 @@ fn run_rparse(text: &str) -> Outcome {
     }
 }
 
+/// Untrusted element counts (HARDENING 8; seeded change C06-9): every collection whose decoder hands a count read from the
+/// bytes to `read_many` is decoded from a count that no input can satisfy (2^16 + 1 .. usize::MAX) followed by a tail of
+/// 0, 1, 255, 256, 257 or 1000 bytes - so that a streaming source has, or has not, seen the end of the data when the
+/// count arrives - alone, nested, and as the trailing `gkr_proof` of a whole proof. `run_dec` sends each line through
+/// SliceReader, Cursor and ReadAdapter over 1-, 7-, 256-byte, mixed and whole-input reads: all must end in the same kind of
+/// error (never a panic), with heap requests proportional to the input (`<source>.alloc`; the workers also run under an
+/// address-space cap, so a reservation of the full count aborts the worker: outcome `abort`).
+fn gen_huge_counts(rng: &mut Rng, emit: &mut dyn FnMut(String)) {
+    let counts: [u64; 19] = [
+        (1 << 16) + 1,
+        1 << 20,
+        1 << 24,
+        1 << 28,
+        (1 << 31) - 1,
+        1 << 31,
+        (1 << 31) + 1,
+        (1 << 32) - 1,
+        1 << 32,
+        (1 << 32) + 1,
+        (1 << 62) - 1,
+        1 << 62,
+        (1 << 63) - 1,
+        1 << 63,
+        (1 << 63) + 1,
+        u64::MAX / 16,
+        u64::MAX / 8 + 1,
+        u64::MAX - 1,
+        u64::MAX,
+    ];
+    let tails = [0usize, 1, 255, 256, 257, 1000];
+    let vint = |v: u64| -> Vec<u8> {
+        let mut b = vec![];
+        b.write_usize(v as usize);
+        b
+    };
+    // (type, bytes before the count)
+    let plain: [(&str, Vec<u8>); 12] = [
+        ("vec(u8)", vec![]),
+        ("vec(u64)", vec![]),
+        ("vec(u16)", vec![]),
+        ("vec(usize)", vec![]),
+        ("str", vec![]),
+        ("vec(str)", vec![]),
+        ("map(u8,u8)", vec![]),
+        ("set(u16)", vec![]),
+        ("opt(vec(u8))", vec![1]),
+        ("opt(str)", vec![1]),
+        ("vec(vec(u32))", vec![]),
+        // a good first element, then an inner count nothing satisfies
+        ("vec(vec(u32))", {
+            let mut b = vint(3);
+            b.extend(vint(1));
+            b.extend([7, 0, 0, 0]);
+            b
+        }),
+    ];
+    for (k, (ty, pre)) in plain.iter().enumerate() {
+        for (ci, c) in counts.iter().enumerate() {
+            for (ti, tl) in tails.iter().enumerate() {
+                let mut b = pre.clone();
+                b.extend(vint(*c));
+                // zero / random tails in rotation (zeros decode as elements of every type above)
+                if (k + ci + ti) % 2 == 0 {
+                    b.extend(vec![0u8; *tl]);
+                } else {
+                    b.extend(rng.bytes(*tl));
+                }
+                emit(format!("dec {} {}", ty, hex(&b)));
+            }
+        }
+    }
+    // the same count as the trailing gkr_proof of whole proofs (the only count of a proof that reaches read_many on the
+    // outer reader unchecked): the dummy proof and two generated ones
+    let mut proofs: Vec<Vec<u8>> = vec![];
+    {
+        let mut d = Proof::new_dummy();
+        d.gkr_proof = None;
+        proofs.push(d.to_bytes());
+    }
+    for _ in 0..40 {
+        if proofs.len() >= 3 {
+            break;
+        }
+        let text = <Proof as Val>::gen(rng, 40);
+        if let Ok(mut p) = guarded(move || parse_proof(&mut P::new(&text))) {
+            p.gkr_proof = None;
+            if let Ok(b) = guarded(|| p.to_bytes()) {
+                if Proof::from_bytes(&b).is_ok() && b.len() < 4000 {
+                    proofs.push(b);
+                }
+            }
+        }
+    }
+    for pb in &proofs {
+        // the last byte is the `None` marker of gkr_proof
+        let body = &pb[..pb.len() - 1];
+        for c in counts.iter() {
+            for tl in tails.iter() {
+                let mut b = body.to_vec();
+                b.push(1);
+                b.extend(vint(*c));
+                b.extend(rng.bytes(*tl));
+                emit(format!("dec proof {}", hex(&b)));
+            }
+        }
+    }
+}
+
 /// `vint <v>`: the variable-length size encoding: `<hex> <len>`
 fn run_vint(v: &str) -> Outcome {
     let v: u64 = v.parse().unwrap();
@@ -2216,7 +2499,7 @@ macro_rules! types {
     ($cb:ident) => {
         $cb! {
             u8, u16, u32, u64, u128, usize, Bool, (), String, Bytes,
-            Option<u8>, Option<u64>, Option<Bytes>, Option<Option<Bool>>, Option<String>,
+            Option<u8>, Option<u64>, Option<Bytes>, Option<Option<Bool>>, Option<String>, Option<Vec<u8>>,
             Vec<u8>, Vec<u16>, Vec<u64>, Vec<usize>, Vec<Bool>, Vec<String>, Vec<Bytes>, Vec<Option<u16>>, Vec<()>,
             Vec<Vec<u32>>, Vec<(u8, u64)>,
             [u8; 0], [u64; 1], [u16; 3], [Option<u8>; 4], [u8; 32], [Vec<u8>; 2],
@@ -3033,6 +3316,7 @@ impl Prop for C12 {
             gen_map_wire::<u16, u16>(rng, nm, emit);
             gen_seq(rng, if quick { 150 } else { 1500 }, emit);
         }
+        gen_huge_counts(rng, emit);
         // the size encoding: every boundary 2^(7k) +- 1, 2^(8k) +- 1
         for v in int_bounds(64) {
             emit(format!("vint {}", v));
@@ -3148,6 +3432,11 @@ impl Prop for C12 {
     }
     fn timeout_ms(&self) -> u64 {
         20_000
+    }
+    /// address-space cap of a worker: a decoder that reserves an untrusted element count aborts the worker (outcome
+    /// `abort`), not the machine
+    fn mem_cap(&self) -> u64 {
+        4 << 30
     }
     fn panic_site(&self, _line: &str) -> Option<String> {
         Some("harness.unguarded-panic".into())
